@@ -50,6 +50,18 @@ Theorem C11_edit_after_merge_builds_on_merge n cap evs cw : crun fixed cap (cw0 
 Proof. exact (Cache.C11_edit_after_merge_builds_on_merge n cap evs cw). Qed.
 Print Assumptions C11_edit_after_merge_builds_on_merge.
 
+(* ... and the commit itself: a successful Commit through the cache writes one commit whose only parent is the head of the
+   loaded bug, which is where the user's ref was (after a pull: the merged head, whatever was staged when the pull arrived),
+   and moves the ref there: later edits build on the merged history *)
+Theorem C11_commit_is_child_of_loaded_head n cap evs cw r e id au cw' : crun fixed cap (cw0 n) evs = Some cw ->
+  cstep fixed cap cw (VCommit r e id au) = Some (cw', CDone) ->
+  exists h m, kget e (sl (cb (ucache_of cw r))) = Some m /\ fst (m_base m) = h /\
+              alookup e (locals (ww (gw cw)) r) = Some h /\
+              alookup e (locals (ww (gw cw')) r) = Some (length (st (ww (gw cw)))) /\
+              parents (st (ww (gw cw'))) (length (st (ww (gw cw)))) = [h].
+Proof. exact (Cache.C11_commit_is_child_of_loaded_head n cap evs cw r e id au cw'). Qed.
+Print Assumptions C11_commit_is_child_of_loaded_head.
+
 (* the code as found: each defect alone leads to a quiescent state that is not coherent *)
 Theorem C11_index_on_merge_refuted :
   refuted {| v_index_merged := false; v_ident_updated := true; v_merge_result := true; v_keep_newest := true |} 2.
@@ -80,3 +92,12 @@ Example C11_sessions_exist :
               quiescentb_at cw 1 = true /\
               gfb (gw cw) 1 0 = Some (4, [100%N; 101%N; 201%N; 202%N]) /\ parents (st (ww (gw cw))) 4 = [3] /\ parents (st (ww (gw cw))) 3 = [2; 1]).
 Proof. exact Cache.witnesses_run_fixed. Qed.
+
+(* a pull that updates a bug loaded with a staged operation: the merged entity replaces it, the cache is quiescent and the
+   next edit made through the cache is a child of the merged head *)
+Example C11_pull_over_staged_session :
+  (exists cw, crun fixed 2 (cw0 2) witness_pull_over_staged = Some cw /\ quiescentb_at cw 1 = true /\
+              kget 0 (sl (cb (ucache_of cw 1))) = Some (clean (1, [100%N; 101%N]))) /\
+  (exists cw, crun fixed 2 (cw0 2) (witness_pull_over_staged ++ [VResolve 1 0; VStage 1 0 202%N; VCommit 1 0 12%N 2%N]) = Some cw /\
+              gfb (gw cw) 1 0 = Some (2, [100%N; 101%N; 202%N]) /\ parents (st (ww (gw cw))) 2 = [1]).
+Proof. exact Cache.pull_over_staged_runs_fixed. Qed.
